@@ -27,7 +27,8 @@ TABLE = {
                              "Model/DepExec.v", "Proofs/StepSafe.v", "Proofs/DepSafe.v", "Proofs/Fidelity.v"], n=(70, 700)),
     "C07": dict(kinds=["step", "dep", "block", "cstep"], oracle=oracles.c07,
                 cone=SAFE + ["Model/StepExec.v", "Model/LiveSpec.v", "Proofs/StepSafe.v", "Proofs/StepLive.v", "Proofs/StepLiveCor.v",
-                             "Proofs/DictFacts.v", "Proofs/C10Proofs.v"], n=(90, 800)),
+                             "Proofs/DictFacts.v", "Proofs/C10Proofs.v",
+                             "Model/DepExec.v", "Proofs/DepSafe.v", "Proofs/Fidelity.v", "Proofs/DepCeiling.v"], n=(90, 800)),
     "C11": dict(kinds=["block", "step", "dep", "cblock", "cstep"], oracle=oracles.c11,
                 cone=SAFE + ["Model/StepExec.v", "Proofs/StepSafe.v", "Proofs/ExecOrder.v"], n=(70, 700)),
     "C12": dict(kinds=["block", "step", "dep", "cblock", "cstep", "ublock"], oracle=oracles.c12, cone=LIVE, n=(70, 700)),
